@@ -270,30 +270,25 @@ Definition plan_outs (g : graph) (plan : list id) : list id := flat_map (outs_of
 Definition completeb (g : graph) (am : bool) (r0 outs plan : list id) : bool :=
   forallb (dep_okb g am (plan_outs g plan ++ r0)) outs.
 
-(* worklist computation of the needed operators *)
-Fixpoint needed_iter (g : graph) (r0 : list id) (fuel : nat) (work acc : list id) : list id :=
-  match fuel with
-  | O => acc
-  | S f =>
-      match work with
-      | [] => acc
-      | v :: w =>
-          if resolved_contains g r0 v then needed_iter g r0 f w acc
-          else match get_source g v with
-               | Some (o, n) =>
-                   if mem o acc then needed_iter g r0 f w acc
-                   else needed_iter g r0 f (deps g n ++ w) (o :: acc)
-               | None => needed_iter g r0 f w acc
-               end
-      end
-  end.
+(* the needed operators: least fixed point, computed in rounds over the operator ids *)
+Definition sourced (g : graph) (v o : id) : bool :=
+  match get_source g v with Some (o', _) => o' =? o | None => false end.
 
-Definition total_deps (g : graph) : nat :=
-  fold_right (fun o a => (length (match get_op g o with Some n => deps g n | None => [] end) + a)%nat)
-             O (op_ids g).
+Definition wants (g : graph) (r0 : list id) (o : id) (vs : list id) : bool :=
+  existsb (fun v => negb (resolved_contains g r0 v) && sourced g v o) vs.
+
+Definition wanted_byb (g : graph) (r0 outs acc : list id) (o : id) : bool :=
+  wants g r0 o outs ||
+  existsb (fun p => match get_op g p with Some pn => wants g r0 o (deps g pn) | None => false end) acc.
+
+Definition needed_round (g : graph) (r0 outs acc : list id) : list id :=
+  acc ++ filter (fun o => negb (mem o acc) && wanted_byb g r0 outs acc o) (nodup N.eq_dec (op_ids g)).
+
+Fixpoint iter {A} (n : nat) (f : A -> A) (x : A) : A :=
+  match n with O => x | S k => iter k f (f x) end.
 
 Definition needed_set (g : graph) (r0 outs : list id) : list id :=
-  needed_iter g r0 (S (length outs + total_deps g + num_ops g)) outs [].
+  iter (S (num_ops g)) (needed_round g r0 outs) [].
 
 Definition minimalb (g : graph) (r0 outs plan : list id) : bool :=
   let ns := needed_set g r0 outs in forallb (fun o => mem o ns) plan.
@@ -301,23 +296,24 @@ Definition minimalb (g : graph) (r0 outs plan : list id) : bool :=
 Definition plan_okb (g : graph) (am : bool) (r0 outs plan : list id) : bool :=
   nodupb plan && valid_fromb g am r0 plan && completeb g am r0 outs plan && minimalb g r0 outs plan.
 
-(* forward closure: values computable from r0 through source operators *)
-Definition comp_step (g : graph) (am : bool) (res : list id) : list id :=
-  flat_map (fun o => match get_op g o with
-                     | Some n =>
-                         if forallb (dep_okb g am res) (deps g n)
-                         then filter (fun v => match get_source g v with
-                                               | Some (o', _) => o' =? o
-                                               | None => false end) (op_outs n)
-                         else []
-                     | None => []
-                     end) (op_ids g) ++ res.
+(* forward closure: operators whose dependencies are all computable "fire", in rounds; the
+   computable values are r0 plus the outputs a fired operator is the source of *)
+Definition fired_outs (g : graph) (o : id) : list id :=
+  match get_op g o with Some n => filter (fun v => sourced g v o) (op_outs n) | None => [] end.
 
-Fixpoint iter {A} (n : nat) (f : A -> A) (x : A) : A :=
-  match n with O => x | S k => iter k f (f x) end.
+Definition res_of (g : graph) (r0 fired : list id) : list id := flat_map (fired_outs g) fired ++ r0.
+
+Definition can_fire (g : graph) (am : bool) (r0 fired : list id) (o : id) : bool :=
+  match get_op g o with
+  | Some n => forallb (dep_okb g am (res_of g r0 fired)) (deps g n)
+  | None => false
+  end.
+
+Definition comp_round (g : graph) (am : bool) (r0 fired : list id) : list id :=
+  fired ++ filter (fun o => negb (mem o fired) && can_fire g am r0 fired o) (nodup N.eq_dec (op_ids g)).
 
 Definition computable_set (g : graph) (am : bool) (r0 : list id) : list id :=
-  iter (S (num_ops g)) (comp_step g am) r0.
+  res_of g r0 (iter (S (num_ops g)) (comp_round g am r0) []).
 
 Definition request_plannableb (g : graph) (ins outs : list id) (am ca : bool) : bool :=
   nodupb outs && forallb (is_value_or_const g) outs &&
